@@ -276,3 +276,51 @@ func provloopsSizeExtra(t *tr, gp, dp *packages.Package) string {
 	}
 	return b.String()
 }
+
+// provloopsDefaultsExtra: the limit / passes a generic JSON provider gets when its config does not mention them —
+// the composite literal DefaultDecodeProviderConfig returns (core/provider; the registered factory of `type: json` starts
+// from DefaultJSONProviderConfig, which embeds it): a key that is absent is the zero value, a key that is present must be
+// a constant.
+func provloopsDefaultsExtra(t *tr, p *packages.Package) string {
+	x := &provloopsSize{t: t, p: p, ctx: "DefaultDecodeProviderConfig"}
+	fd := provloopsMethod(p, "", "DefaultDecodeProviderConfig")
+	if fd == nil || len(fd.Body.List) == 0 {
+		t.errs = append(t.errs, "provloops defaults: core/provider DefaultDecodeProviderConfig not found")
+		return ""
+	}
+	ret, ok := fd.Body.List[len(fd.Body.List)-1].(*ast.ReturnStmt)
+	if !ok || len(ret.Results) != 1 || len(fd.Body.List) != 1 {
+		x.fail(fd, "the function is not a single `return DecodeProviderConfig{…}`")
+		return ""
+	}
+	lit, ok := ret.Results[0].(*ast.CompositeLit)
+	if !ok {
+		x.fail(ret, "the result is not a composite literal")
+		return ""
+	}
+	vals := map[string]string{"Limit": "0", "Passes": "0"}
+	for _, el := range lit.Elts {
+		kv, ok := el.(*ast.KeyValueExpr)
+		if !ok {
+			x.fail(el, "positional field")
+			continue
+		}
+		k := x.src(kv.Key)
+		if _, want := vals[k]; want {
+			if tv, ok := p.TypesInfo.Types[kv.Value]; ok && tv.Value != nil {
+				vals[k] = tv.Value.ExactString()
+			} else {
+				vals[k] = x.fail(kv.Value, "default of %s is not a constant", k)
+			}
+		}
+	}
+	// the JSON provider's default embeds it unchanged
+	embeds := false
+	if jd := provloopsMethod(p, "", "DefaultJSONProviderConfig"); jd != nil && len(jd.Body.List) == 1 {
+		embeds = x.src(jd.Body.List[0]) == "return JSONProviderConfig{Decode: DefaultDecodeProviderConfig()}"
+	}
+	return fmt.Sprintf("/-- regenerated from `core/provider/decoder.go` DefaultDecodeProviderConfig: the (limit, passes) of a generic JSON provider whose\n"+
+		"config does not mention them; `decodeDefaultEmbedded`: DefaultJSONProviderConfig (what the registered `type: json` factory starts from)\n"+
+		"is `JSONProviderConfig{Decode: DefaultDecodeProviderConfig()}` -/\n"+
+		"def decodeDefaultBounds : Nat × Nat := (%s, %s)\ndef decodeDefaultEmbedded : Bool := %v\n\n", vals["Limit"], vals["Passes"], embeds)
+}
